@@ -117,3 +117,62 @@ Proof.
   - intro E. apply Hne. destruct (req_entries r); [reflexivity|discriminate E].
   - exact H.
 Qed.
+
+(* ---- fan-out mergers (ListGroups, DescribeGroups, DescribeConfigs): no silent drop ---- *)
+Lemma concat_merge_from_spec : forall (A : Type) (results : list (part_result A)) acc,
+  match concat_merge_from results acc with
+  | FanOk l => exists parts, results = map PartOk parts /\ l = acc ++ concat parts
+  | FanErr e => exists pre rest, results = map PartOk pre ++ PartErr e :: rest
+  end.
+Proof.
+  intros A results. induction results as [|r rs IH]; intro acc.
+  - cbn. exists []. split; [reflexivity|]. cbn. rewrite app_nil_r. reflexivity.
+  - destruct r as [l|e]; cbn [concat_merge_from].
+    + specialize (IH (acc ++ l)). destruct (concat_merge_from rs (acc ++ l)) as [items|e].
+      * destruct IH as [parts [H1 H2]]. exists (l :: parts). split.
+        { cbn. rewrite H1. reflexivity. }
+        { cbn. rewrite H2, app_assoc. reflexivity. }
+      * destruct IH as [pre [rest H]]. exists (l :: pre), rest. cbn. rewrite H. reflexivity.
+    + exists [], rs. reflexivity.
+Qed.
+
+(* every requested part is in the result, or the call carries the error of a failed part *)
+Lemma fanout_no_silent_drop : forall (A : Type) (results : list (part_result A)),
+  match concat_merge results with
+  | FanOk l => exists parts, results = map PartOk parts /\ l = concat parts
+  | FanErr e => exists pre rest, results = map PartOk pre ++ PartErr e :: rest
+  end.
+Proof.
+  intros A results. unfold concat_merge.
+  pose proof (concat_merge_from_spec A results []) as H.
+  destruct (concat_merge_from results []); exact H.
+Qed.
+
+Lemma listgroups_no_silent_drop : forall (A : Type) (brokers : list Z) (results : list (part_result A)),
+  length brokers = length results ->
+  match listgroups_merge brokers results with
+  | FanOk l => exists parts, results = map PartOk parts /\
+                 l = concat (map (fun bp => map (fun g => (g, fst bp)) (snd bp)) (combine brokers parts))
+  | FanErr e => In (PartErr e) results
+  end.
+Proof.
+  intros A brokers results. unfold listgroups_merge, concat_merge.
+  assert (G : forall acc, length brokers = length results ->
+    match concat_merge_from (map (fun br => label_part (fst br) (snd br)) (combine brokers results)) acc with
+    | FanOk l => exists parts, results = map PartOk parts /\
+                   l = acc ++ concat (map (fun bp => map (fun g => (g, fst bp)) (snd bp)) (combine brokers parts))
+    | FanErr e => In (PartErr e) results
+    end).
+  { revert results. induction brokers as [|b bs IH]; intros results acc Hl.
+    - destruct results; [|discriminate Hl]. cbn. exists []. split; [reflexivity|]. cbn. rewrite app_nil_r. reflexivity.
+    - destruct results as [|r rs]; [discriminate Hl|]. injection Hl as Hl.
+      cbn [combine map fst snd]. destruct r as [l|e]; cbn [label_part concat_merge_from].
+      + specialize (IH rs (acc ++ map (fun g => (g, b)) l) Hl).
+        destruct (concat_merge_from _ _) as [items|e].
+        * destruct IH as [parts [H1 H2]]. exists (l :: parts). split.
+          { cbn. rewrite H1. reflexivity. }
+          { cbn [combine map concat fst snd]. rewrite H2, app_assoc. reflexivity. }
+        * right. exact IH.
+      + left. reflexivity. }
+  intro Hl. specialize (G [] Hl). exact G.
+Qed.
